@@ -136,6 +136,17 @@ CLAIMED["C10"] = dict(
          "subgrid's next phase in the task graph (C07 rules G1, G2, G4, G8 re-checked). Summation round-off and bit reproducibility are not decided.",
     note="Trusted: clang, AST export, sympy polynomial arithmetic; assumption A1 (neighbour tables) and C08 container guarantees.")
 
+CLAIMED["C04"] = dict(
+    level="other", design="3/C04",
+    technique="static analysis: phi-evaluation (forward substitution with opaque merge symbols at branches, constant loops unrolled) of the "
+              "flux application and state update code, computer-algebra check of antisymmetry / common scaling, non-negativity-by-construction flags",
+    text="Decides, for every state and every limiter outcome at once, that the five updates a face flux applies to its left and right cell "
+         "cancel exactly, that all five carry the same area/limiter factor relative to the Riemann output, that nothing else of the cell "
+         "states is written, that a boundary flux changes only the inside cell, and that the final writes of mass, energy, density and pressure "
+         "are max(.,0) clamps or non-negative by construction on every path. With C10 (each face once) this is conservation wherever the "
+         "safeguard does not intervene. Finiteness, the reflective-wall clause and the round-off size are numeric and not decided.",
+    note="Trusted: clang, AST export, sympy; the Riemann solver's outputs are opaque symbols (its own symmetry is C05).")
+
 NOT_APPLICABLE = {
     "C13": "Equality with the RANLUX sequence, range [0,1) and byte-identical snapshots are facts about computed 48-bit arithmetic and library I/O; no sound static domain or on-disk reference to validate against. Its one structural clause (generator state fully dumped/restored) is decided under C09.",
     "C15": "Validity of a Voronoi tessellation and agreement of two constructions quantify over real generator sets; correctness rests on geometric predicates and flip sequences whose outcomes are runtime values; no clause has its truth in the shape of the code.",
